@@ -121,6 +121,11 @@ class Abort(Exception):
 
 
 # ----------------------------------------------------------------------------------------
+class CallbackInterrupt(BaseException):
+    """What a progress callback raises in the 'raise_base' scenarios: derived from BaseException, like
+    GeneratorExit / KeyboardInterrupt / asyncio.CancelledError, so `except Exception` does not stop it."""
+
+
 class OpRunner(object):
     """Interprets op dicts against a device object (sync or async)."""
 
@@ -159,6 +164,8 @@ class OpRunner(object):
             calls.append((path, n, total))
             if kind == 'raise':
                 raise RuntimeError('progress callback failed (scenario)')
+            if kind == 'raise_base':
+                raise CallbackInterrupt('progress callback failed with something that is not an Exception (scenario)')
             if kind == 'reenter' and not is_async and len(calls) <= 3:
                 # a callback that uses the device (legal): another sync transaction while the transfer is in progress
                 rec.setdefault('reenter', []).append(dev.stat(op.get('reenter_path', '/sdcard/reenter')))
